@@ -651,7 +651,9 @@ impl CoseKeyBuilder {
     /// This function will panic if it used to set a parameter label from the [`iana::KeyParameter`]
     /// range.
     #[must_use]
-    pub fn param(self, label: i64, value: Value) -> Self { let mut self_ = self;
+    pub fn param(self, label: i64, value: Value) ->« (r:» Self«)
+        requires !(0 <= label <= 5),
+        ensures r.inner() == (CoseKey { params: r.inner().params, ..self.inner() }), r.inner().params@ == self.inner().params@.push((Label::Int(label), value)),» { let mut self_ = self;
         if iana::KeyParameter::from_i64(label).is_some() {
             panic!("param() method used to set KeyParameter"); // safe: invalid input
         }
